@@ -333,7 +333,7 @@ def shrink(harness, suite, div, scratch, budget=60):
 # known findings
 # ---------------------------------------------------------------------------------------------
 
-TIMING_SUITES = {"cluster", "halt", "lease", "proxy", "api", "backup"}
+TIMING_SUITES = {"cluster", "halt", "lease", "proxy", "api", "backup", "goctx"}
 
 
 def load_known(prop):
